@@ -112,6 +112,7 @@ func loadWorld(repo string, bc BuildConfig, overlay map[string][]byte) (*World, 
 		}
 		return a.String() < b.String()
 	})
+	resolveFieldAliases(w)
 	return w, nil
 }
 
@@ -322,7 +323,7 @@ func fieldIndex(s *types.Struct, name string) int {
 		return -1
 	}
 	for i := 0; i < s.NumFields(); i++ {
-		if s.Field(i).Name() == name {
+		if s.Field(i).Name() == name || canonField(s.Field(i)) == name {
 			return i
 		}
 	}
